@@ -85,6 +85,9 @@ def c07(chk):
                     chk.count('decoded durations below 1 ms')
                 k += 1
                 cases.append(c)
+    corp = [ol.from_desc(d, k=900 + q) for q, d in enumerate(ol.corpus('C07'))]
+    chk.notes['corpus_cases'] = len(corp)
+    cases = corp + cases
     groups_q, groups_d = [], []
     for i, c in enumerate(cases):
         g = c.setup_lines(i, 'Q') + [c.eval_line(f'{i}.v', 'Q')]
@@ -112,16 +115,27 @@ def c07(chk):
     chk.notes['float_yardstick_runs'] = len(suspects)
 
     def rounding_limited(i, key, idxs, va, vex):
-        """True if the C++ deviates from the exact values by at most 32x what the IEEE-double model instance does"""
+        """True if the C++ loses at most 32x the digits the IEEE-double instance of the model loses on this case. The loss of
+        the instance is the larger of its relative deviations on the cost and on the gradient (each on its own scale): one
+        of the two can be small by luck (thorough tier, seed 3: 0.24 ms quintic, cost 1.5e-9 but gradient 1e-7)"""
         r = mf.get(f'{i}.v')
+        ex = mq.get(f'{i}.v')
         if not r or key not in r:
             return False
-        vf = fv(r[key])
-        if any(isinstance(x, float) for x in vf) or any(isinstance(va[q], float) for q in idxs):
+        if any(isinstance(va[q], float) for q in idxs):
             return False
-        dev_f = max(abs(vf[q] - vex[q]) for q in idxs)
-        dev_a = max(abs(va[q] - vex[q]) for q in idxs)
-        return dev_a <= 32 * dev_f
+        loss_f = Fr(0)
+        for k2 in ('cost', 'grad'):
+            vf, ve = fv(r[k2]), fv(ex[k2])
+            if any(isinstance(x, float) for x in vf) or len(vf) != len(ve):
+                return False
+            sc = max([Fr(1)] + [abs(x) for x in ve])
+            loss_f = max(loss_f, max(abs(x - y) for x, y in zip(vf, ve)) / sc)
+        sc = max([Fr(1)] + [abs(vex[q]) for q in idxs])
+        loss_a = max(abs(va[q] - vex[q]) for q in idxs) / sc
+        vf = fv(r[key])
+        loss_f = max(loss_f, max(abs(vf[q] - vex[q]) for q in idxs) / sc)      # the same entries on the same scale
+        return loss_a <= 32 * loss_f
 
     for i, c in enumerate(cases):
         cells(chk, c, 'wp' if c.spec['useWp'] else 'nowp', 'rho>0' if c.rho > 0 else 'rho=0')
